@@ -11,6 +11,12 @@ legs:   M  exhaustive TLC check that both server encodings carry exactly the vie
         H  TLC-generated request histories (spec/ServerIfaceHistory.tla: requests with/without content of their
            own, the application writing marks into the containers the API hands out) replayed on ONE application
            object per driver; what each request finds must be what the spec says (ViewIndependentOfHistory)
+        D  response body sources whose delivery is incremental (spec/ServerIfaceDelivery.tla + ServerIface!StreamedResponse):
+           TLC enumerates every delivery pattern (sequence of block sizes) of small data for a file-like and an iterable
+           source (BodyIsWholeSource, ResponseEqualAcrossStacks, three wrong-design switches); every pattern is replayed
+           through six drivers (raw WSGI without/with wsgi.file_wrapper, raw ASGI, falcon.testing likewise); random
+           longer deliveries are recorded (what the source was asked / gave, the response) and judged by TLC
+           (spec/ServerIfaceDeliveryTrace.tla)
         B  seeded random richer requests, in histories of 3 on one application object per driver with a writing
            application, driven through the same four drivers, one event per driver, judged by TLC
            (ServerIfaceTrace) against ServerIface!View / Expressible / no foreign marks
@@ -33,7 +39,21 @@ META = {
                   'normalised response must coincide on all drivers that can express the request, and method, decoded '
                   'path, query string, header map, content type/length, host/port/netloc/scheme, root path, peer and '
                   'body must equal the values TLC computes from the abstract request.',
-    'level_note': 'Histories: all 144 (quick) / 1728 (thorough) behaviours of ServerIfaceHistory with 2 / 3 requests x 6 writer '
+    'level_note': 'Incremental body sources (leg D): resp.stream as a file-like (sync on WSGI, consumed by the framework iterator '
+                  'and by wsgi.file_wrapper; async on ASGI) and as an iterable / async iterable (generator and iterator object); '
+                  'ALL delivery patterns of data of 0, 1, 5, 6 (thorough: 8) bytes with model block size 4 - file-like: every '
+                  'composition into blocks of 1..4 bytes (1 byte, then 3, then the rest; full blocks then a short one; a full last '
+                  'block; end only by b\'\'), iterable: every sequence of <= 4 chunk sizes, empty chunks included - x status x '
+                  'announced Content-Length or none; 530 (quick) / 2372 (thorough) deliveries, each replayed through six drivers '
+                  '(raw WSGI without/with wsgi.file_wrapper, raw ASGI, falcon.testing WSGI without/with file_wrapper, falcon.testing '
+                  'ASGI) at scale 1 (every block short of the framework block size) and, for file-likes, at the scale where the '
+                  'model block size is the framework block size of 8192 (full blocks are full reads); status, Content-Type, '
+                  'Content-Length and body must equal ServerIface!StreamedResponse from TLC, the complete header sets must '
+                  'coincide. 250 / 1500 random deliveries (<= 200 bytes, pattern families pipe / full+short / ones / random / '
+                  'whole, block size asked for 4, 16, 64 via a subclass overriding _STREAM_BLOCK_SIZE, or the default) are '
+                  'recorded and judged by ServerIfaceDeliveryTrace. Not covered there: HEAD / bodiless statuses with a stream '
+                  '(C05), sources that raise, close() accounting (C05), a read(n) returning more than n. '
+                  'Histories: all 144 (quick) / 1728 (thorough) behaviours of ServerIfaceHistory with 2 / 3 requests x 6 writer '
                   'sets are replayed; leg B runs its random requests in histories of 3. Plain responders combine text, data, media '
                   '(unset / empty / non-empty) and stream with 5 statuses, an optional Content-Type and a script (direct / the '
                   'application renders early and copies a body digest into a header / then mutates the media in place). The '
@@ -827,9 +847,395 @@ def event_of(iface, o):
     return ev
 
 
+# ------------------------------------------------------------------------------------------------
+# leg D: response body sources whose delivery is incremental (spec/ServerIfaceDelivery.tla, ServerIface.tla)
+# ------------------------------------------------------------------------------------------------
+
+DELIVERY_DRIVERS = ('raw-wsgi', 'raw-wsgi-fw', 'raw-asgi', 'client-wsgi', 'client-wsgi-fw', 'client-asgi')
+FLAVOURS = {'file': ('file',), 'iter': ('gen', 'obj')}     # iterable: a generator / an iterator object
+
+
+class Pipe:
+    """The recording body source: holds the blocks of one delivery pattern and hands out the next one per call,
+    whatever size is asked for (never more than asked); the end is signalled only once all blocks are out."""
+
+    def __init__(self, blocks, log):
+        self.blocks, self.i, self.rest, self.log, self.closed = list(blocks), 0, b'', log, 0
+
+    def pull(self, n, is_file):
+        if self.rest:
+            b, self.rest = self.rest, b''
+        elif self.i < len(self.blocks):
+            b = self.blocks[self.i]
+            self.i += 1
+        else:
+            self.log.append(('end', -1, b''))
+            return None
+        if is_file and isinstance(n, int) and 0 < n < len(b):
+            b, self.rest = b[:n], b[n:]
+        self.log.append(('pull', n if is_file and isinstance(n, int) else -1, b))
+        return b
+
+
+class SyncFile(Pipe):
+    def read(self, n=-1):
+        b = self.pull(n, True)
+        return b'' if b is None else b
+
+    def close(self):
+        self.closed += 1
+
+
+class AsyncFile(Pipe):
+    async def read(self, n=-1):
+        b = self.pull(n, True)
+        return b'' if b is None else b
+
+    async def close(self):
+        self.closed += 1
+
+
+class SyncIterObj(Pipe):
+    def __iter__(self):
+        return self
+
+    def __next__(self):
+        b = self.pull(-1, False)
+        if b is None:
+            raise StopIteration
+        return b
+
+
+class AsyncIterObj(Pipe):
+    def __aiter__(self):
+        return self
+
+    async def __anext__(self):
+        b = self.pull(-1, False)
+        if b is None:
+            raise StopAsyncIteration
+        return b
+
+
+def _sync_gen(pipe):
+    while True:
+        b = pipe.pull(-1, False)
+        if b is None:
+            return
+        yield b
+
+
+async def _async_gen(pipe):
+    while True:
+        b = pipe.pull(-1, False)
+        if b is None:
+            return
+        yield b
+
+
+class DeliveryLogic:
+    """The streaming responder: one object, mounted on both stacks."""
+    status, announce, blocks, flavour, log = 200, False, (), 'file', None
+
+    def respond(self, resp, asgi):
+        resp.status = self.status
+        resp.content_type = 'application/octet-stream'
+        if self.announce:
+            resp.content_length = sum(len(b) for b in self.blocks)
+        f = self.flavour
+        if f == 'file':
+            resp.stream = (AsyncFile if asgi else SyncFile)(self.blocks, self.log)
+        elif f == 'obj':
+            resp.stream = (AsyncIterObj if asgi else SyncIterObj)(self.blocks, self.log)
+        else:
+            resp.stream = (_async_gen if asgi else _sync_gen)(Pipe(self.blocks, self.log))
+
+
+class DeliveryWsgiRes:
+    def __init__(self, logic):
+        self.logic = logic
+
+    def on_get(self, req, resp):
+        self.logic.respond(resp, False)
+
+
+class DeliveryAsgiRes:
+    def __init__(self, logic):
+        self.logic = logic
+
+    async def on_get(self, req, resp):
+        self.logic.respond(resp, True)
+
+
+_DELIVERY_APPS = {}
+
+
+def delivery_apps(block_size=None):
+    """(logic, WSGI app, ASGI app); block_size None = the framework's own block size, else the harness knob
+    _STREAM_BLOCK_SIZE overridden in subclasses of the two application classes (leg B only: full blocks with small data)."""
+    if block_size not in _DELIVERY_APPS:
+        import falcon
+        import falcon.asgi
+        logic = DeliveryLogic()
+        W, A = falcon.App, falcon.asgi.App
+        if block_size is not None:
+            W = type('SmallBlockApp', (W,), {'_STREAM_BLOCK_SIZE': block_size})
+            A = type('SmallBlockAsgiApp', (A,), {'_STREAM_BLOCK_SIZE': block_size})
+        w, a = W(), A()
+        w.add_route('/d', DeliveryWsgiRes(logic))
+        a.add_route('/d', DeliveryAsgiRes(logic))
+        _DELIVERY_APPS[block_size] = (logic, w, a)
+    return _DELIVERY_APPS[block_size]
+
+
+def _hdr_facts(pairs):
+    """header pairs (any casing) -> the facts ServerIface!StreamedResponse speaks about + digest of the whole set"""
+    hs = sorted([k.lower(), v] for k, v in pairs)
+    ct = [v for k, v in hs if k == 'content-type']
+    cl = [v for k, v in hs if k == 'content-length']
+    return {'ctype': cps(ct[0]) if len(ct) == 1 else [-9],
+            'has_clen': bool(cl), 'clen': int(cl[0]) if len(cl) == 1 and cl[0].isdigit() else -1 if not cl else -2,
+            'hs': sha(hs)}
+
+
+def deliver(driver, blocks, status, announce, flavour, block_size=None):
+    """Run the streaming responder through one driver.  Returns (source log, observation)."""
+    import falcon.testing
+    logic, wapp, aapp = delivery_apps(block_size)
+    logic.status, logic.announce, logic.blocks, logic.flavour, logic.log = status, announce, blocks, flavour, []
+    o = {'status': -1, 'ctype': [], 'has_clen': False, 'clen': -1, 'body': b'', 'hs': '', 'exc': ''}
+    fw = drivers.FileWrapper if driver.endswith('-fw') else None
+    try:
+        with drivers_watchdog():
+            if driver.startswith('raw'):
+                rq = drivers.Req('GET', b'/d', b'', [('Host', 'falconframework.org'), ('User-Agent', 'ua')])
+                res = drivers.asgi_call(aapp, rq) if driver == 'raw-asgi' else drivers.wsgi_call(wapp, rq, file_wrapper=fw)
+                if res.exc is not None:
+                    o['exc'] = 'escaped to the server: %r' % (res.exc,)
+                else:
+                    o.update(_hdr_facts(res.headers), status=res.status, body=res.body)
+            else:
+                with warnings.catch_warnings():
+                    warnings.simplefilter('ignore')
+                    kw = {'file_wrapper': fw} if fw else {}
+                    result = falcon.testing.simulate_request(aapp if driver == 'client-asgi' else wapp, method='GET',
+                                                             path='/d', **kw)
+                o.update(_hdr_facts(result.headers.items()), status=result.status_code, body=bytes(result.content))
+    except Exception as e:      # noqa: anything escaping is an observation
+        o['exc'] = '%s: %s' % (type(e).__name__, e)
+    return logic.log, o
+
+
+def drivers_watchdog():
+    from engine.bytesrc import watchdog
+    return watchdog(5.0)
+
+
+def _unit(b, scale):
+    """representation map of one model byte at scale U: U real bytes (the same map for source data and expectation)"""
+    return bytes([b]) if scale == 1 else bytes((b + 31 * k) % 251 for k in range(scale))
+
+
+def check_delivery(ctx, case, scale, flavour, origin='tlc-delivery'):
+    """One TLC-generated delivery (kind, data, pattern, status, announce) at one scale through the six drivers:
+    every observation must equal ServerIface!StreamedResponse as exported by TLC (BodyIsWholeSource) and the
+    complete header sets must coincide (ResponseEqualAcrossStacks)."""
+    blocks = [b''.join(_unit(x, scale) for x in blk) for blk in case['blocks']]
+    want = case['response']
+    want_body = b''.join(_unit(x, scale) for x in want['body'])
+    want_clen = want['clen'] * scale if want['has_clen'] else want['clen']
+    brief = {'origin': origin, 'delivery': case, 'scale': scale, 'flavour': flavour}
+    ctx.case(brief, nontrivial=len(case['sizes']) >= 2, key=digest([case['kind'], case['data'], case['sizes'], case['status'],
+                                                                    case['announce'], scale, flavour]))
+    base = None
+    runs = 0
+    for drv in DELIVERY_DRIVERS:
+        log, o = deliver(drv, blocks, case['status'], case['announce'], flavour)
+        runs += 1
+        pulled = [len(g) for op, _, g in log if op == 'pull']
+        where = '%s (%s, consumer %s; source asked %d times, gave %s)' % (drv, flavour, case['drivers'][drv], len(log), pulled[:12])
+        if o['exc']:
+            ctx.violation('P:exception', brief, '%s: %s' % (where, o['exc']))
+            continue
+        if o['status'] != want['status']:
+            ctx.violation('P:status', brief, '%s: status %s, specification %s' % (where, o['status'], want['status']))
+        if o['body'] != want_body:
+            ctx.violation('P:body-whole-source', brief, '%s: body of %d bytes, the source delivers %d bytes in blocks %s; '
+                          'first difference at %d' % (where, len(o['body']), len(want_body), [len(b) for b in blocks][:12],
+                                                      next((i for i, (x, y) in enumerate(zip(o['body'], want_body)) if x != y),
+                                                           min(len(o['body']), len(want_body)))))
+        if o['ctype'] != want['ctype']:
+            ctx.violation('P:content-type', brief, '%s: Content-Type %r' % (where, o['ctype']))
+        if o['has_clen'] != want['has_clen'] or o['clen'] != want_clen:
+            ctx.violation('P:content-length', brief, '%s: Content-Length present=%s value=%s, specification present=%s value=%s'
+                          % (where, o['has_clen'], o['clen'], want['has_clen'], want_clen))
+        if base is None:
+            base = (drv, o)
+        elif o['hs'] != base[1]['hs']:
+            ctx.violation('P:equal-response', brief, '%s: header set differs from %s' % (where, base[0]))
+    return runs
+
+
+def random_delivery(rng):
+    """One streaming responder beyond the model's bound: data of up to 200 bytes, a delivery pattern from one of the
+    pattern families, the block size the consumers ask for (None = the framework's own, every block is short)."""
+    kind = 'file' if rng.random() < 0.6 else 'iter'
+    bs = rng.choice([None, 4, 4, 16, 64])
+    n = rng.choice([0, 1, 2, 4, 5, 8, 16, 17, 63, 64, 65, 128, 200, rng.randrange(201)])
+    data = bytes(rng.randrange(256) for _ in range(n))
+    cap = bs or 8192
+    sizes = []
+    left = n
+    fam = rng.choice(['pipe', 'full+short', 'ones', 'random', 'random', 'whole'])
+    if kind == 'file':
+        if fam == 'pipe':
+            for s in (1, 3):
+                if left >= s:
+                    sizes.append(s)
+                    left -= s
+            while left:
+                s = rng.randint(1, max(1, min(cap - 1, left)))
+                sizes.append(s)
+                left -= s
+        elif fam == 'full+short':
+            while left:
+                s = min(cap, left)
+                sizes.append(s)
+                left -= s
+        else:
+            while left:
+                s = 1 if fam == 'ones' else min(cap, left) if fam == 'whole' else rng.randint(1, min(cap, left))
+                sizes.append(s)
+                left -= s
+    else:
+        while left:
+            s = 1 if fam == 'ones' else left if fam == 'whole' else rng.choice([0, rng.randint(1, left), rng.randint(0, left)])
+            sizes.append(s)
+            left -= s
+        for _ in range(rng.choice([0, 0, 1, 2])):
+            sizes.insert(rng.randint(0, len(sizes)), 0)
+    blocks, off = [], 0
+    for s in sizes:
+        blocks.append(data[off:off + s])
+        off += s
+    return {'origin': 'random-delivery', 'kind': kind, 'data': list(data), 'sizes': sizes, 'status': rng.choice([200, 200, 201, 206]),
+            'announce': rng.random() < 0.4, 'block_size': bs, 'flavour': rng.choice(FLAVOURS[kind])}, blocks
+
+
+def record_delivery(brief, blocks):
+    """the trace of one streaming responder for ServerIfaceDeliveryTrace: per driver the source's log, then the response"""
+    evs = []
+    blank = {'drv': '', 'op': '', 'n': -1, 'got': [], 'status': -1, 'ctype': [], 'has_clen': False, 'clen': -1, 'body': [],
+             'hs': '', 'exc': ''}
+    for drv in DELIVERY_DRIVERS:
+        log, o = deliver(drv, blocks, brief['status'], brief['announce'], brief['flavour'], brief['block_size'])
+        for op, n, got in log:
+            evs.append(dict(blank, drv=drv, op=op, n=n, got=list(got)))
+        evs.append(dict(blank, drv=drv, op='response', status=o['status'] if isinstance(o['status'], int) else -1,
+                        ctype=o['ctype'], has_clen=o['has_clen'], clen=o['clen'], body=list(o['body']), hs=o['hs'], exc=o['exc']))
+    return {'kind': brief['kind'], 'data': brief['data'], 'status': brief['status'], 'announce': brief['announce'], 'ev': evs}
+
+
+def blocks_of(brief):
+    out, off = [], 0
+    for s in brief['sizes']:
+        out.append(bytes(brief['data'][off:off + s]))
+        off += s
+    return out
+
+
+def judge_deliveries(ctx, briefs, traces):
+    verdicts = ctx.judge('ServerIfaceDeliveryTrace', traces, workers=4, timeout=600, chunk=2000)
+    for brief, tr, v in zip(briefs, traces, verdicts):
+        if v == 'ok':
+            continue
+        clause, _, at = v.partition('@')
+        ev = tr['ev'][int(at) - 1] if at.isdigit() and 0 < int(at) <= len(tr['ev']) else None
+        if clause.startswith('H:'):
+            raise MachineryError('leg D: the recording source broke its contract: %s %s' % (canon(brief), canon(ev)[:300]))
+        pulls = [len(e['got']) for e in tr['ev'] if ev and e['drv'] == ev['drv'] and e['op'] == 'pull']
+        ctx.violation(clause, {'case': brief, 'trace': tr},
+                      'trace rejected by ServerIfaceDeliveryTrace at event %s (%s; %s source of %d bytes in blocks %s, consumer asks '
+                      'for %s; it pulled %s): status %s, body of %s bytes%s'
+                      % (at, ev and ev['drv'], brief['flavour'], len(brief['data']), brief['sizes'][:14], brief['block_size'] or 'its own block size',
+                         pulls[:14], ev and ev['status'], ev and len(ev['body']), ' exception: %s' % ev['exc'] if ev and ev['exc'] else ''))
+
+
+DELIVERY_ACTS = ['Choose', 'PullFull', 'PullShort', 'PullChunk', 'PullEmpty', 'EndOfSource', 'Finish']
+DELIVERY_BAD = [('MC_ServerIfaceDeliveryBadShort.cfg', 'BodyIsWholeSource', 'ShortReadEndsBody'),
+                ('MC_ServerIfaceDeliveryBadEmpty.cfg', 'BodyIsWholeSource', 'EmptyChunkEndsBody'),
+                ('MC_ServerIfaceDeliveryBadOnce.cfg', 'ResponseEqualAcrossStacks', 'AsgiReadsOnce')]
+
+
+def start_delivery_models(ctx):
+    """the TLC runs of leg D, started in the background (they are independent of the other legs); counted when collected"""
+    from concurrent.futures import ThreadPoolExecutor
+    ex = ThreadPoolExecutor(5)
+    futs = {'bad': [ex.submit(ctx.tlc, 'MC_ServerIfaceDelivery', cfg, workers=1, timeout=600, must_hold=False, count=False)
+                    for cfg, _, _ in DELIVERY_BAD]}
+    if not ctx.quick:
+        futs['interleaved'] = ex.submit(ctx.tlc, 'MC_ServerIfaceDelivery', 'MC_ServerIfaceDeliveryI.cfg', coverage=True,
+                                        workers=3, timeout=1500, count=False)
+    futs['main'] = ex.submit(ctx.tlc, 'MC_ServerIfaceDelivery', ctx.pick('MC_ServerIfaceDeliveryQ.cfg', 'MC_ServerIfaceDelivery.cfg'),
+                             coverage=True, workers=2, timeout=1500, count=False)
+    ex.shutdown(wait=False)
+    return futs
+
+
+def leg_delivery(ctx, futs=None):
+    # ---- M: the delivery state machine (sequential and interleaved consumers), its wrong-design switches
+    futs = futs or start_delivery_models(ctx)
+    for name in ('interleaved', 'main'):
+        if name in futs:
+            r = futs[name].result()
+            ctx.require_coverage(r, DELIVERY_ACTS)
+            ctx.states += r.distinct
+            ctx.transitions += r.generated
+    for (cfg, inv, sw), f in zip(DELIVERY_BAD, futs['bad']):
+        rb = f.result()
+        if rb.violated != inv:
+            raise MachineryError('wrong-design switch %s did not violate %s (got %r)' % (sw, inv, rb.violated))
+    bad = DELIVERY_BAD
+    cases = list({digest(c): c for c in r.json}.values())
+    ctx.progress('leg D: %d deliveries from TLC (%d states)' % (len(cases), r.distinct))
+    # ---- A: every TLC-enumerated delivery through the six drivers; at scale 1 (every block is short of the framework's
+    #         block size) and at the scale at which the model's BlockSize is the framework's (full blocks are full)
+    import falcon
+    real_bs = getattr(falcon.App, '_STREAM_BLOCK_SIZE', 8192)
+    runs = n = 0
+    for case in cases:
+        scales = [1]
+        if case['kind'] == 'file' and isinstance(real_bs, int) and real_bs % case['block_size'] == 0:
+            scales.append(real_bs // case['block_size'])
+        for scale in scales:
+            for flavour in FLAVOURS[case['kind']]:
+                runs += check_delivery(ctx, case, scale, flavour)
+                n += 1
+    ctx.traces_validated += n
+    # ---- B: random deliveries beyond the bound, recorded and judged by TLC
+    briefs, traces = [], []
+    seen = set()
+    for _ in range(ctx.pick(250, 1500)):
+        brief, blocks = random_delivery(ctx.rng)
+        k = digest(brief)
+        if k in seen:
+            continue
+        seen.add(k)
+        ctx.case(brief, nontrivial=len(brief['sizes']) >= 2, key=k)
+        briefs.append(brief)
+        traces.append(record_delivery(brief, blocks))
+    judge_deliveries(ctx, briefs, traces)
+    ctx.extra['leg_D'] = {'deliveries_from_tlc': len(cases), 'replays': n, 'driver_runs': runs, 'judged_traces': len(traces),
+                          'judged_events': sum(len(t['ev']) for t in traces),
+                          'wrong_design_switches': ['%s=TRUE violates %s' % (sw, inv) for _, inv, sw in bad]}
+    ctx.progress('leg D done: %d deliveries x scales x flavours = %d replays (%d driver runs), %d random traces judged'
+                 % (len(cases), n, runs, len(traces)))
+
+
 def run(ctx):
     ctx.rule = ('case = (abstract request, request options, responder kind) or a history of requests with the '
-                'application\'s writes; generated by TLC (legs A, H) or by the seeded rng (leg B); non-trivial iff the request has a repeated or non-canonically cased header field, a '
+                'application\'s writes; generated by TLC (legs A, H) or by the seeded rng (leg B); or a streaming responder '
+                '(source kind, data, delivery pattern, status, announced length; leg D, non-trivial iff the pattern has >= 2 blocks); non-trivial iff the request has a repeated or non-canonically cased header field, a '
                 'non-ASCII or percent-escaped target, or a body arriving in chunks; distinct by hash of the case')
     ctx.trusted_base = ['TLC evaluation of spec/ServerIface.tla', 'engine/drivers.py (raw WSGI/ASGI drivers and protocol monitors)',
                         "CPython codecs (latin-1, utf-8)", 'http.cookies (Set-Cookie projection)', 'json / hashlib for digests']
@@ -839,9 +1245,13 @@ def run(ctx):
                        'fields occurring once, cookies, content',
                        'a body is read by the application in a loop until the stream reports the end (short reads of '
                        'wsgi.input are C07 territory)',
+                       'leg D: a body source obeys ServerIface!DeliveryOK (a file-like never returns an empty block before the '
+                       'end nor more than asked for); small block sizes are obtained by subclassing the application classes '
+                       'with another _STREAM_BLOCK_SIZE (leg D, judged traces only)',
                        'requests are well-formed in the sense of ServerIface!WellFormed (ASCII query string, field names '
                        'without "_", truthful Content-Length, Host values name[:digits])']
 
+    delivery_models = start_delivery_models(ctx)       # leg D's TLC runs, collected at the end
     # ---- leg M: the design -----------------------------------------------------------------------
     acts = ['Start', 'SetClass', 'SetResponder', 'SetTarget', 'SetQuery', 'AddHeader', 'EndHeaders', 'SetBody', 'SetEndpoint', 'SetForwarding', 'Send']
     if ctx.quick:
@@ -942,6 +1352,9 @@ def run(ctx):
                       'trace rejected by ServerIfaceTrace at event %s (%s)%s: %s'
                       % (at, ev and ev['iface'], ' exception: %s' % exc if exc else '', canon(ev)[:500]))
     ctx.extra['leg_B'] = {'traces': len(traces), 'events': sum(len(t['ev']) for t in traces)}
+
+    # ---- leg D: response body sources whose delivery is incremental (model, replay, judged traces) ----------------
+    leg_delivery(ctx, delivery_models)
     ctx.note('leg A compares in Python observed values with values exported by TLC; leg B lets TLC compare')
 
 
@@ -1060,6 +1473,15 @@ def replay_history(ctx, hid, steps):
 
 def replay(ctx, case):
     c = case.get('case', case)
+    if 'delivery' in c:
+        check_delivery(ctx, c['delivery'], c['scale'], c['flavour'], 'replay')
+        return
+    if c.get('origin') == 'random-delivery':
+        tr = record_delivery(c, blocks_of(c))
+        for e in tr['ev']:
+            print(e['drv'], e['op'], e['n'], len(e['got']), e['status'], len(e['body']), e['exc'])
+        judge_deliveries(ctx, [c], [tr])
+        return
     if 'history' in c:
         replay_history(ctx, 0, c['history'])
         return
